@@ -311,3 +311,5 @@ package syntax
 //@   requires p != nil && p.ASTBuilder != nil && p.ASTBuilder.ptr != 0 && lexerFresh(p.Lexer)
 //@   modifies p.Lexer.cursor, p.Lexer.IndentType, p.Lexer.Lines, mem(p.Lexer.Lines), p.Lexer.beginLex, key:F$zh.ParserZH$Lexer, key:F$zh.ParserZH$TokenP1, key:F$zh.ParserZH$TokenP2, key:F$zh.ParserZH$StartLineIdxP1, key:F$zh.ParserZH$EndLineIdxP1, key:F$zh.ParserZH$StartLineIdxP2, key:F$zh.ParserZH$EndLineIdxP2, key:F$zh.ParserZH$stmtCompleteFlag, key:F$syntax.StmtBase$currentLine, key:F$syntax.ExprBase$currentLine
 //@   ensures [tree-or-error] (err == nil ==> ast != nil) && (err == nil || err.ptr != 0)
+
+//@ fieldinv Program.Lexer nonnil
